@@ -153,6 +153,7 @@ func newWorld(rp resetParams) (*worldT, error) {
 	if world != nil {
 		world.close()
 	}
+	idxSnaps = map[string][]idxSnap{}
 	worldCounter++
 	dir := filepath.Join(scratch(), fmt.Sprintf("ledger-%d-%d", os.Getpid(), worldCounter))
 	if err := os.MkdirAll(dir, 0o700); err != nil {
